@@ -504,7 +504,8 @@ def stage_crash(rep, specs, traces, kinds, followups=2):
         if spec_key(spec) not in traces:
             continue
         aops, _ = traces[spec_key(spec)]
-        pts = [(n, k) for n in range(len(aops)) for k in kinds]
+        pts = [tuple(x) for x in spec['points']] if spec.get('points') else \
+            [(n, k) for n in range(len(aops)) for k in kinds]
         jobs += [(spec, p) for p in split(pts, max(1, 14 // len(specs)))]
     res = pool_map(jobs)
     dis, bad, calls_all, raw_all = [], 0, [], []
@@ -629,6 +630,38 @@ TRACE_ONLY = (
 )
 
 
+def stage_r_make(rep):
+    """R:make_attempt - the two facts about GNU Make the model uses beyond what the crash experiments exercise: a Makefile
+    that includes a missing .bfg_find_deps fails, a missing Makefile fails."""
+    spec = dict(QUICK_FIXED[1])
+    bad = 0
+    with Bench(spec) as b:
+        b.restore()
+        os.remove(os.path.join(b.build, '.bfg_find_deps'))
+        rc1, _, out1 = project.make(b.build, [], stub_tools=True)
+        b.restore()
+        os.remove(os.path.join(b.build, 'Makefile'))
+        rc2, _, out2 = project.make(b.build, [], stub_tools=True)
+    rep.case('R:make missing depfile', True)
+    rep.case('R:make missing Makefile', True)
+    for what, rc, out in (('a missing included .bfg_find_deps', rc1, out1), ('a missing Makefile', rc2, out2)):
+        if rc == 0:
+            bad += 1
+            rep.fail('R:make_attempt - the model says make fails on %s, the real make exits 0' % what,
+                     {'obligation': 'R:make_attempt', 'what': what, 'out': out[-400:]}, found_input=False)
+    rep.stage('R:make_attempt', cases=2, disagreements=bad)
+
+
+def load_corpus():
+    d = os.path.join(common.VERIF, 'corpus', 'C10')
+    out = []
+    if os.path.isdir(d):
+        for fn in sorted(os.listdir(d)):
+            if fn.endswith('.json'):
+                out.append(json.load(open(os.path.join(d, fn))))
+    return out
+
+
 def load_own_findings(rep):
     """known_findings.json is merged from findings.d by the coordinator; until then use our own entries too."""
     p = os.path.join(common.VERIF, 'findings.d', 'C10.json')
@@ -642,13 +675,16 @@ def run(rep):
     thorough = rep.tier == 'thorough'
     load_own_findings(rep)
     rep.proof_stage(coqchk=thorough)
-    fault_specs = gen_specs(rng, 8 if thorough else 2, fixed=QUICK_FIXED)
+    fault_specs = gen_specs(rng, 10 if thorough else 3, fixed=QUICK_FIXED)
+    have = [spec_key(x) for x in fault_specs]
+    fault_specs += [c for c in load_corpus() if spec_key(c) not in have]      # past witnesses: listed points only
     if thorough:
         fault_specs.append(dict(TRACE_ONLY[2]))          # lazy skip run, faulted too
         fault_specs.append(dict(TRACE_ONLY[0]))          # no find_files at all
     trace_specs = fault_specs + [dict(s) for s in TRACE_ONLY if spec_key(s) not in [spec_key(x) for x in fault_specs]]
     traces, dis = stage_trace(rep, trace_specs)
-    kinds = ('kill_before', 'kill_after', 'raise_before', 'raise_after') if thorough else ('kill_before', 'raise_after')
+    kinds = ('kill_before', 'kill_after', 'raise_before', 'raise_after')
+    stage_r_make(rep)
     bad, dis2 = stage_crash(rep, fault_specs, traces, kinds)
     bad3, dis3 = stage_script_raise(rep, rng, thorough)
     dis = dis + dis2 + dis3
